@@ -86,6 +86,27 @@ CLAIMED.update({
     },
 })
 
+CLAIMED.update({
+    "C02": {
+        "technique": "TLA+ model of the subquery split algorithm (QuerySplit) checked by TLC after every operator against a left-to-right relational interpreter through a TLA+ SQL statement reader and evaluator on all small databases; every real compilation validated by TLC with the same relation",
+        "text": "Design level: every sequence of up to 3/4 operators from a 22-entry menu is a state; after each operator TLC checks that the model's statement, read by Sql!ReadStmt and evaluated by Rel!SqlSem, returns on each of the 91 (thorough: also 820) instances of T(a,b) over {NULL,1,2} exactly what Rel!PipelineSem returns for the operators applied left to right: same column names in the same order, same rows, in the order classes a sort determines. Conformance: every sequence is compiled by the real Compile; TLC reads the real statement and evaluates the same relation; structural difference from the model is reported as drift only.",
+        "note": "The dialect's order propagation through sub-selects is an assumption of the specification (DESIGN.md 9). Results are compared where determined (no limit through tied rows).",
+        "ref": "DESIGN.md 3.6, 4 (C02)",
+    },
+    "C03": {
+        "technique": "as C02, on join families: left prefix x 14 join forms x following operator x second join, three base tables with NULL / duplicate / unmatched keys",
+        "text": "TLC checks at design level and on the real statements that the join source (DISTINCT for innerunique, JOIN / LEFT JOIN, $left/$right aliases, bare-key rewrite, AND-ed conditions, nested right-hand pipelines and joins, operators after the join) returns the reference join of the pipeline so far with the right-hand pipeline, on all instances of T(k,a), B(k,b), C(k,c) with up to 1 (thorough 2) rows each.",
+        "note": "Join conditions are compared by truth. Programs refer after a join only to unambiguous columns.",
+        "ref": "DESIGN.md 3.6, 4 (C03)",
+    },
+    "C05": {
+        "technique": "TLA+ statement grammar and name-resolution predicate (Sql!ReadStmt, PlanCheck!WellFormed) evaluated by TLC on every statement the real Compile returns for generated programs, accepted corruptions and random token soups",
+        "text": "Every successful compilation among all generator families, all single-token corruptions that still compile and 30,000/300,000 random token soups is checked: exactly one final semicolon, no comment / unlexable piece / placeholder, balanced brackets (harness), and by TLC: reads as [WITH name AS (select), ...] select identically under both precedence tables, CTE names unique, every FROM/JOIN reads a table of the source or an earlier CTE, no CTE unused.",
+        "note": "A pass-through function whose name is an SQL keyword is read as a function call. Colliding user-chosen `as` names are outside the claim.",
+        "ref": "DESIGN.md 3.4, 4 (C05)",
+    },
+})
+
 NOT_YET = {}
 
 
